@@ -109,6 +109,8 @@ def _allowed(site) -> Optional[str]:
 
 
 def run(db, chk) -> None:
+    from ..specs.discipline import check_facade_stateless
+    check_facade_stateless(db, chk, "C20.R-facade-stateless", ['generate_trace_with_counters', 'overlay_critical_path_analysis'])
     ta, cp, tf, tm, tp = (db.mod(x) for x in ("hta.trace_analysis", "hta.analyzers.critical_path_analysis", "hta.common.trace_file", "hta.common.trace", "hta.common.trace_parser"))
     targets = [(ta, "TraceAnalysis.generate_trace_with_counters"), (cp, "CriticalPathAnalysis.overlay_critical_path_analysis"), (tf, "update_trace_rank")]
     total = 0
